@@ -739,7 +739,7 @@ def run(chk):
         chk.violation("harness-build", "the correspondence harness does not build against /repo", {"log": out[-4000:]}, found_input=False)
         chk.coverage.update({"evaluations": 0})
         return
-    n_oracle, n_model = (2400, 110) if chk.tier == "quick" else (30000, 1500)
+    n_oracle, n_model = (3000, 150) if chk.tier == "quick" else (30000, 1500)
     rc, out, err = vlib.harness_run("geom", ["pairs", "--seed", chk.seed, "--n", n_oracle])
     cases = [parse_pair(l) for l in out.split("\n") if l.startswith("pair ")]
     chk.log("implementation ran %d box pairs" % len(cases))
@@ -830,9 +830,12 @@ def run(chk):
         "model_evaluations": len(sel),
         "distinct_nontrivial": len(nontrivial),
         "rule": "box pairs from the streams general / rigid / aa / aa0 / identical / nested / touching / collinear / rightangle / far / "
-                "boundary (sizes 0.1..1e3, coordinates to 1e4, angles None, 0, k*pi/2, |angle| up to 50, random); every pair is checked by the "
-                "property oracles (exact true intersection of the implementation's own vertices), a stratified subset by the Coq model "
-                "(clip vertex lists, areas, IoU, None/Some, too_far, closed form, inter_area = inter_area_ref inside Coq). "
+                "boundary (sizes 0.1..1e3, coordinates to 1e4, angles None, 0, k*pi/2, |angle| up to 50, random) + a corpus; EVERY pair: "
+                "property oracles (exact convex-hull intersection of the implementation's own vertices) and the exact replay of "
+                "Model/Geom.v (clip vertex lists 1e-9, areas / IoU 1e-6, None/Some outside the 1e-9 band, too_far exactly outside a 1e-5 band "
+                "and on f32-exact boundary cases, closed form, binary64 replay of the vertex code bit for bit); a stratified subset "
+                "(model_evaluations) is evaluated by coqc (vm_compute, Qops), compared EXACTLY with the replay, and "
+                "clip area = inter_area_ref is decided inside Coq. "
                 "non-trivial = the two boxes are different and overlap with positive area outside the 1e-9 band; distinct by box fields",
         "samples": [c["raw"][:300] for c in cases[6:9]],
         "input_distribution": dict(hist),
@@ -867,7 +870,7 @@ def run(chk):
                        "failing_pairs_in_this_run": len(group),
                        "replay_cmd": REPLAY_CMD % line, "broken": chk.broken})
     if known_f:
-        report(known_f, KEY_KNOWN, "rotated boxes with collinear edges: the f64 clipper misclassifies collinear endpoints / intersects parallel lines")
+        report(known_f, KEY_KNOWN, "rotated boxes with collinear edges: the clipper misplaces the crossing point of (numerically) parallel lines (the defect repaired by commit 04617aa is back)")
     if other_f:
         report(other_f, "C08:oracle", "the implementation violates the property text")
     if not failing and dis_known:
